@@ -108,7 +108,7 @@ func c08online(c *rig.Ctx) {
 		x.Close()
 	}
 
-	var seq [W]int64
+	var seq [W]atomic.Int64
 	// writer i runs until stop is set
 	writer := func(i int, stop *atomic.Bool, wg *sync.WaitGroup) {
 		defer wg.Done()
@@ -141,8 +141,8 @@ func c08online(c *rig.Ctx) {
 			}
 		}()
 		for !stop.Load() {
-			seq[i]++
-			pk := int64(i)*1_000_000 + seq[i]
+			sq := seq[i].Add(1)
+			pk := int64(i)*1_000_000 + sq
 			o := wop{Writer: i, PK: pk, T0: rig.Mono()}
 			var err error
 			if i < 3 {
@@ -171,7 +171,7 @@ func c08online(c *rig.Ctx) {
 				if err == nil {
 					o.InsOK = true
 					var h string
-					h, err = hashOf(x, fmt.Sprintf("call dolt_commit('-Am','w%d-%d')", i, seq[i]))
+					h, err = hashOf(x, fmt.Sprintf("call dolt_commit('-Am','w%d-%d')", i, sq))
 					if err == nil {
 						o.Outcome, o.Hash = "ok", h
 					} else if sqlrig.IsConnErr(err) {
@@ -239,11 +239,9 @@ func c08online(c *rig.Ctx) {
 		if mainKV == nil || mainKL == nil {
 			return
 		}
-		known := map[string]bool{"0": true}
 		lost := 0
 		for _, o := range ops {
 			k := fmt.Sprint(o.PK)
-			known[k] = true
 			if o.T1 >= before {
 				continue
 			}
@@ -274,9 +272,13 @@ func c08online(c *rig.Ctx) {
 				}
 			}
 		}
+		// a row on main must have been issued by one of the three transaction writers (its sequence number was handed out)
 		for k := range mainKV {
-			if !known[k] {
-				viol("c08/online/phantom-row", "row "+k+" in kv was never written "+when, nil)
+			var pk int64
+			fmt.Sscan(k, &pk)
+			w, sq := pk/1_000_000, pk%1_000_000
+			if pk != 0 && (w < 0 || w >= 3 || sq < 1 || sq > seq[w].Load()) {
+				viol("c08/online/phantom-row", "row "+k+" in kv on main was never written "+when, nil)
 			}
 		}
 		tl.inc("c08.ledger_checks")
